@@ -28,7 +28,9 @@ def table : List (String × Out) := [
   ("/vmix",        ⟨200, 0, 60, .full, false, false, none⟩),
   ("/vttl",        ⟨200, 0, 60, .full, false, false, none⟩),
   ("/vmix2",       ⟨200, 0, 60, .full, false, false, none⟩),
-  ("/vbig",        ⟨200, 0, 60, .full, false, false, none⟩)]
+  ("/vbig",        ⟨200, 0, 60, .full, false, false, none⟩),
+  -- the handler rewrites the request's URI while it runs; the entry is stored under the URI that was looked up
+  ("/rw",          ⟨200, 0, 60, .full, false, false, none⟩)]
 
 def isVary (path : String) : Bool := path.startsWith "/v"
 
@@ -48,7 +50,7 @@ def queries : List (Option Bytes) := [none, some [], some (b "x=1"), some (b "x=
 
 structure St where
   store : VStore := []
-  counters : List Nat := List.replicate 19 0
+  counters : List Nat := List.replicate 20 0
 
 def BASE : Nat := 100000000
 
